@@ -189,7 +189,11 @@ impl InnerLocustDB {
     fn worker_loop(locustdb: Arc<InnerLocustDB>) {
         while locustdb.running.load(Ordering::SeqCst) {
             if let Some(task) = InnerLocustDB::await_task(&locustdb) {
-                task.execute();
+                // A panicking task must not take the worker thread down with it: the pool would shrink
+                // until every later request hangs, and the caller would never get an answer.
+                if std::panic::catch_unwind(std::panic::AssertUnwindSafe(|| task.execute())).is_err() {
+                    task.abort();
+                }
             }
         }
         drop(locustdb) // Make clippy happy
